@@ -21,7 +21,6 @@ import (
 	"strings"
 	"sync"
 
-	"cosmossdk.io/math"
 	sdk "github.com/cosmos/cosmos-sdk/types"
 	"github.com/cosmos/gogoproto/proto"
 
@@ -35,7 +34,7 @@ func init() {
 		Rule: "schedules: all transaction-granular interleavings of 3 instances x 2 transactions + 1 query-only step (630, quick) / 3 x 3 + 1 (16800, thorough), once with separate keepers and once with one keeper shared by all instances; " +
 			"histories collide on the same keys with different values (one pauses while another sends, different attester sets, same nonce with different bodies); after every transaction the instance's IAVL root hash, response bytes, " +
 			"event bytes and error text must equal that instance's solo reference run; plus the same histories after unrelated histories and 16 repeated runs in one process, and a separate free-running -race build running the bodies on 16 goroutines " +
-			"(separate and shared keepers); distinct_nontrivial = distinct schedules in which at least two instances' transactions on the same key are adjacent",
+			"(separate and shared keepers); discarded-transaction non-interference: for every ordered pair (s, q) of the ~135-request menu of C15 in 6 states, q after simulating-and-discarding s must equal q alone (result, response, events, post-state), and all queries/export after a discarded s must equal those before; distinct_nontrivial = distinct schedules in which at least two instances' transactions on the same key are adjacent",
 		Assumptions: []string{"a cooperative scheduler with transaction-granular scheduling points is equivalent to executing the interleaved sequence on one goroutine; unsynchronised access is left to the separate -race pass",
 			"Go map-iteration order, time and rand have no seam: they are covered by repeated in-process runs (a randomised differential, not part of the exhaustive claim) and by an informational AST scan"},
 		Jobs:     c18Jobs,
@@ -63,6 +62,10 @@ func c18Jobs(tier string) []Job {
 			jobs = append(jobs, Job{Name: fmt.Sprintf("schedules shared=%v shard%d", shared, sh), Run: func(r *Run) { c18Schedules(r, per, shared, sh) }})
 		}
 	}
+	for _, st := range c15States {
+		st := st
+		jobs = append(jobs, Job{Name: "discarded-tx-non-interference @" + st, Run: func(r *Run) { c18NonInterference(r, st) }})
+	}
 	jobs = append(jobs, Job{Name: "repeat-and-after-unrelated", Run: c18Repeat})
 	jobs = append(jobs, Job{Name: "race-pass", Run: c18RacePass})
 	jobs = append(jobs, Job{Name: "ast-scan", Run: c18AST})
@@ -81,6 +84,13 @@ func c18Histories() [][]Action {
 	signers := Keys[0:2]
 	b1 := InboundBurn(DomEth, 1, big.NewInt(10), pad32(UserB.Addr), nil)
 	b1other := InboundBurn(DomEth, 1, big.NewInt(999), pad32(UserA.Addr), nil) // same nonce, different body
+	// the first message a fresh chain emits for this send (needed to replace it)
+	send := MkSend(UserA.Str, DomEth, distinct32(0x21), []byte("hello"))
+	scratch := c18Scenario().Build(KindDB)
+	var own []byte
+	if o := scratch.Apply(send); o.OK {
+		own = MessageSentOf(o.Events)[0]
+	}
 	return [][]Action{
 		{
 			Act("pauseSendingAndReceiving by A2", &cctptypes.MsgPauseSendingAndReceivingMessages{From: Pauser.Str}),
@@ -88,14 +98,14 @@ func c18Histories() [][]Action {
 			Act("unpauseSendingAndReceiving by A2", &cctptypes.MsgUnpauseSendingAndReceivingMessages{From: Pauser.Str}),
 		},
 		{
-			MkSend(UserA.Str, DomEth, distinct32(0x21), []byte("hello")),
+			send,
+			MkReplaceMessage(UserA.Str, own, Attest(own, signers), []byte("replaced"), distinct32(0x23), "own first message"),
 			MkReceive(UserB.Str, b1, Attest(b1, signers), "burn(0,1,10)"),
-			MkDeposit(UserA.Str, math.NewInt(5), DomEth, distinct32(0x24), "uusdc"),
 		},
 		{
-			Act("enableAttester(K3) by A1", &cctptypes.MsgEnableAttester{From: AttMgr.Str, Attester: Keys[2].Hex}),
+			Act("updatePauser(A6) by A0", &cctptypes.MsgUpdatePauser{From: Owner.Str, NewPauser: Outsider.Str}),
 			MkReceive(UserB.Str, b1other, Attest(b1other, signers), "burn(0,1,999) other body"),
-			Act("updateSignatureThreshold(3) by A1", &cctptypes.MsgUpdateSignatureThreshold{From: AttMgr.Str, Amount: 3}),
+			Act("enableAttester(K3) by A1", &cctptypes.MsgEnableAttester{From: AttMgr.Str, Attester: Keys[2].Hex}),
 		},
 	}
 }
@@ -441,7 +451,14 @@ func c18RaceInRepo(rep string) bool {
 			if f == "" || strings.HasPrefix(f, "/") || strings.HasPrefix(f, "<autogenerated>") {
 				continue
 			}
-			if strings.HasPrefix(f, "runtime.") || strings.HasPrefix(f, "sync.") || strings.HasPrefix(f, "sync/atomic.") || strings.HasPrefix(f, "bytes.") || strings.HasPrefix(f, "strings.") {
+			// skip runtime and standard-library frames (their import path has no domain element)
+			first := f
+			if i := strings.Index(first, "/"); i >= 0 {
+				first = first[:i]
+			} else if i := strings.Index(first, "."); i >= 0 {
+				first = first[:i]
+			}
+			if !strings.Contains(first, ".") && !strings.HasPrefix(f, "main.") {
 				continue
 			}
 			if strings.Contains(f, "noble-cctp/x/cctp") {
@@ -505,3 +522,113 @@ func c18AST(r *Run) {
 }
 
 func c18Finalize(m *Run) {}
+
+// ---------------------------------------------------------------------------
+// discarded-transaction non-interference
+
+// queryDigest renders the answers of all query types (default requests and a
+// few single-item keys, incl. non-canonical spellings).
+func queryDigest(w *World) string {
+	cctx, _ := w.ctx.CacheContext()
+	k := w.K
+	var sb strings.Builder
+	p := func(v any, e error) { fmt.Fprintf(&sb, "%v/%v;", v, e) }
+	p(k.Roles(cctx, &cctptypes.QueryRolesRequest{}))
+	p(k.Attesters(cctx, &cctptypes.QueryAllAttestersRequest{}))
+	p(k.PerMessageBurnLimits(cctx, &cctptypes.QueryAllPerMessageBurnLimitsRequest{}))
+	p(k.TokenPairs(cctx, &cctptypes.QueryAllTokenPairsRequest{}))
+	p(k.UsedNonces(cctx, &cctptypes.QueryAllUsedNoncesRequest{}))
+	p(k.RemoteTokenMessengers(cctx, &cctptypes.QueryRemoteTokenMessengersRequest{}))
+	p(k.BurningAndMintingPaused(cctx, &cctptypes.QueryGetBurningAndMintingPausedRequest{}))
+	p(k.SendingAndReceivingMessagesPaused(cctx, &cctptypes.QueryGetSendingAndReceivingMessagesPausedRequest{}))
+	p(k.MaxMessageBodySize(cctx, &cctptypes.QueryGetMaxMessageBodySizeRequest{}))
+	p(k.NextAvailableNonce(cctx, &cctptypes.QueryGetNextAvailableNonceRequest{}))
+	p(k.SignatureThreshold(cctx, &cctptypes.QueryGetSignatureThresholdRequest{}))
+	for _, a := range []string{Keys[0].Hex, Keys[2].Hex, Keys[3].Hex} {
+		p(k.Attester(cctx, &cctptypes.QueryGetAttesterRequest{Attester: a}))
+	}
+	p(k.PerMessageBurnLimit(cctx, &cctptypes.QueryGetPerMessageBurnLimitRequest{Denom: "uusdc"}))
+	for _, t := range []string{hex.EncodeToString(RemoteToken0), strings.ToUpper(hex.EncodeToString(RemoteToken0)), "0x" + hex.EncodeToString(distinct32(0xF0))} {
+		p(k.TokenPair(cctx, &cctptypes.QueryGetTokenPairRequest{RemoteDomain: 0, RemoteToken: t}))
+		p(k.TokenPair(cctx, &cctptypes.QueryGetTokenPairRequest{RemoteDomain: 5, RemoteToken: t}))
+	}
+	for _, n := range []uint64{5, 60, 61} {
+		p(k.UsedNonce(cctx, &cctptypes.QueryGetUsedNonceRequest{SourceDomain: 0, Nonce: n}))
+	}
+	for _, d := range []uint32{0, 1, 7, 8} {
+		p(k.RemoteTokenMessenger(cctx, &cctptypes.QueryRemoteTokenMessengerRequest{DomainId: d}))
+	}
+	g := w.ExportCCTP()
+	bz, _ := theCodec().MarshalJSON(g)
+	sb.Write(bz)
+	pend, has := k.GetPendingOwner(cctx)
+	fmt.Fprintf(&sb, "pending=%s/%v", pend, has)
+	return sb.String()
+}
+
+// c18NonInterference: a transaction executed on a branch that is then discarded
+// (CheckTx / simulation / an earlier message of a failing multi-message
+// transaction) must have no influence on any later transaction or query: for
+// every ordered pair (s, q) of the C15 request menu, q after simulate(s) must be
+// byte-identical (result, response, events, post-state) to q alone.
+func c18NonInterference(r *Run, state string) {
+	su := c15Build(r, state)
+	w, base, menu := su.w, su.base, su.menu
+	r.States++
+	refs := make([]string, len(menu))
+	for i, q := range menu {
+		w.Load(base)
+		o := w.Apply(q)
+		refs[i] = o.Digest() + "|" + HashBytes(w.Dump())
+	}
+	w.Load(base)
+	refQ := queryDigest(w)
+	for _, s := range menu {
+		if r.Expired() {
+			r.Truncate("C18 deadline in non-interference @" + state)
+			return
+		}
+		rp := func(q *Action, exp, obs string) Replay {
+			acts := append([]Action{}, su.pre...)
+			x := su.scn.Replay("actions", acts)
+			x.Kind = "schedule"
+			x.Data = map[string]any{"state": state, "simulated_then_discarded": s.Desc, "simulated_wire": s.Hex, "simulated_type": s.Type}
+			if q != nil {
+				x.Data["then"] = q.Desc
+				x.Data["then_wire"], x.Data["then_type"] = q.Hex, q.Type
+			}
+			x.Expected, x.Observed = exp, obs
+			return x
+		}
+		w.Load(base)
+		so := w.Simulate(s)
+		r.Transitions++
+		if HashBytes(w.Dump()) != su.baseHash {
+			r.Violate("C18 discarded transaction left effects in the store: "+handlerName(s.Type), fmt.Sprintf("[%s] %s: %v", state, s.Desc, DiffDumps(base, w.Dump())), rp(nil, "", ""))
+			continue
+		}
+		if got := queryDigest(w); got != refQ {
+			r.Violate("C18 queries depend on a discarded transaction: "+handlerName(s.Type),
+				fmt.Sprintf("[%s] after simulating (and discarding) %s (%s) the query/export results changed:\n before: %.600s\n after:  %.600s", state, s.Desc, so.Class(), refQ, got), rp(nil, refQ, got))
+		}
+		for qi := range menu {
+			q := menu[qi]
+			w.Load(base)
+			w.Simulate(s)
+			o := w.Apply(q)
+			r.Transitions += 2
+			r.Evaluations++
+			got := o.Digest() + "|" + HashBytes(w.Dump())
+			if got != refs[qi] {
+				r.Violate(fmt.Sprintf("C18 result of %s depends on a discarded %s", handlerName(q.Type), handlerName(s.Type)),
+					fmt.Sprintf("[%s] simulate-and-discard %s (%s), then %s:\n alone:          %.500s\n after simulate: %.500s", state, s.Desc, so.Class(), q.Desc, refs[qi], got), rp(&q, refs[qi], got))
+				break
+			}
+		}
+		r.Class("non-interference-ok")
+		if so.OK {
+			r.Distinct(state + "|sim " + s.Desc)
+		}
+	}
+	r.Sample("non-interference", map[string]any{"state": state, "menu": len(menu), "pairs": len(menu) * len(menu)})
+}
